@@ -2,7 +2,7 @@
 
 `/repo/src`, `/repo/tests`, `/repo/README.md`, `/repo/bevy_cobweb_derive` are copied byte-for-byte from the CURRENT
 working tree; then, for every file `contracts/kani/<path with / -> __>.rs`, ONE line is appended to the copied
-source file:   #[cfg(kani)] #[path = "<abs contract file>"] mod verif_contracts;
+source file:   #[cfg(kani)] #[path = "<abs contract file>"] pub(crate) mod verif_contracts;
 (a child module sees the private items of the file it is appended to). The crate manifest points bevy /
 crossbeam / tracing at the assumed environment in /verif/env.
 """
@@ -90,7 +90,7 @@ def stage(tag):
         staged = os.path.join(cdir, os.path.basename(cpath))
         shutil.copy(cpath, staged)
         with open(p, 'a') as fh:
-            fh.write('\n#[cfg(kani)] #[path = "%s"] mod verif_contracts;\n' % staged)
+            fh.write('\n#[cfg(kani)] #[path = "%s"] pub(crate) mod verif_contracts;\n' % staged)
         info['appended'].append(rel)
     with open(os.path.join(root, 'Cargo.toml'), 'w') as fh:
         fh.write(CARGO_TOML.format(env=os.path.join(VERIF, 'env')))
